@@ -10,7 +10,12 @@ pub trait Number: Sized + Copy {
         ensures rv(r) == self.rval(), nan(r) == self.is_nanv();
     fn zero() -> (r: Self)
         ensures r.rval() == 0real, !r.is_nanv();
+    // Number::ceil: identity on integers (tea-dtype number.rs default), mathematical ceiling on floats (A-REAL)
+    spec fn ceil_spec(self) -> Self;
+    fn ceil(self) -> (r: Self)
+        ensures r == self.ceil_spec();
 }
+pub uninterp spec fn f64_ceil(x: f64) -> f64;
 impl Number for f64 {
     open spec fn rval(self) -> real { rv(self) }
     open spec fn is_nanv(self) -> bool { nan(self) }
@@ -18,6 +23,9 @@ impl Number for f64 {
     fn f64(self) -> (r: f64) ensures r == self { self }
     #[verifier::external_body]
     fn zero() -> (r: f64) { 0.0 }
+    open spec fn ceil_spec(self) -> f64 { f64_ceil(self) }
+    #[verifier::external_body]
+    fn ceil(self) -> (r: f64) { f64::ceil(self) }
 }
 impl Number for usize {
     open spec fn rval(self) -> real { self as real }
@@ -26,6 +34,9 @@ impl Number for usize {
     fn f64(self) -> (r: f64) { self as f64 }
     #[verifier::external_body]
     fn zero() -> (r: usize) { 0 }
+    open spec fn ceil_spec(self) -> usize { self }
+    #[verifier::external_body]
+    fn ceil(self) -> (r: usize) { self }
 }
 impl Number for i64 {
     open spec fn rval(self) -> real { self as real }
@@ -34,6 +45,9 @@ impl Number for i64 {
     fn f64(self) -> (r: f64) { self as f64 }
     #[verifier::external_body]
     fn zero() -> (r: i64) { 0 }
+    open spec fn ceil_spec(self) -> i64 { self }
+    #[verifier::external_body]
+    fn ceil(self) -> (r: i64) { self }
 }
 
 pub trait IsNone: Sized + Copy {
